@@ -85,6 +85,9 @@ func loadEngine(repoDir string, pkgPaths []string) (*Engine, error) {
 		droppedCand: map[string]map[string]bool{}, files: map[*token.File]*ast.File{}, mutableGlobal: map[*ssa.Global]bool{},
 		funcs: map[string]*ssa.Function{}, repoDir: repoDir, timeoutMs: 10000, solverSem: make(chan struct{}, 16)}
 	e.ghosts["sendtries"] = &GhostFunc{Name: "sendtries", Field: true, Ret: "Int"}
+	// recvtries(ch): receive attempts made on a channel (a plain receive, or a
+	// receive case of a select, chosen or not). Volatile: usable between calls only.
+	e.ghosts["recvtries"] = &GhostFunc{Name: "recvtries", Field: true, Ret: "Int", Volatile: true}
 	packages.Visit(pkgs, nil, func(p *packages.Package) {
 		if e.fset == nil && p.Fset != nil {
 			e.fset = p.Fset
